@@ -159,7 +159,9 @@ def text_reader(F):
                     mode = "Empty" if L == KE else "WithVersion"
                     ref = _ref_windows(env, mode)
                     pfx_cases = (True, False) if mode == "WithVersion" else (True,)
-                    val_cases = list(itertools.product((True, False), repeat=2)) if strict else [(True, True)]
+                    # the checksum predicate can only fail on the (1-byte checksum, 48 buckets) variant (R-15.2 decides the predicates)
+                    ck_can_fail = env["SIZE_CKSUM"] == 1 and env["SIZE_BUCKETS"] == 48
+                    val_cases = [(vc_, vl_) for vc_ in ((True, False) if ck_can_fail else (True,)) for vl_ in (True, False)] if strict else [(True, True)]
                     for pfx in pfx_cases:
                         for dec in itertools.product((True, False), repeat=4):
                             for vc, vl in val_cases:
@@ -270,7 +272,8 @@ def binary_reader(F):
             ref = {"checksum": {("win", 0, CK)}, "lvalue": {("byte", CK)}, "qratios": {("byte", CK + 1)}, "body": {("win", CK + 2, N)}}
             cv = {k.split(":", 1)[1].rsplit("::", 1)[-1]: v for k, v in env.items() if k.startswith("assoc:")}
             cps = {k: v for k, v in env.items() if not k.startswith("assoc:") and isinstance(v, int)}
-            for vc, vl in (itertools.product((True, False), repeat=2) if strict else [(True, True)]):
+            ck_can_fail = env["SIZE_CKSUM"] == 1 and env["SIZE_BUCKETS"] == 48  # R-15.2 decides the predicates themselves
+            for vc, vl in ([(vc_, vl_) for vc_ in ((True, False) if ck_can_fail else (True,)) for vl_ in (True, False)] if strict else [(True, True)]):
                 calls = dict(_handlers(N))
 
                 def is_valid(x, vc=vc, vl=vl, ref=ref):
